@@ -270,7 +270,18 @@ func (e *Enc) safe(fr *Frame, kind string, guard, goal Term, pos string) {
 	e.assume(guard, goal)
 }
 
-func (e *Enc) topName() string { return shortFuncName(e.top.String()) }
+func (e *Enc) topName() string {
+	name := e.top.String()
+	if e.top.Parent() != nil {
+		// anonymous functions are named by their stable alias (file and ordinal), not by the init#N$M SSA name
+		for alias, real := range e.w.Alias {
+			if real == name {
+				return shortFuncName(alias)
+			}
+		}
+	}
+	return shortFuncName(name)
+}
 
 func shortFuncName(s string) string {
 	return strings.ReplaceAll(s, repoModule+"/", "")
